@@ -3,6 +3,8 @@ import subprocess
 
 ID = "C08"
 CRATE = "c08"
+# sibling sources whose edits enlarge the quick correspondence (fingerprints in source_pins.json)
+SOURCES = ["rlib/io/src/output_macro.rs", "rlib/num_traits/src/lib.rs"]
 COQ_DIR = "C08"
 COQ_DEPS = []
 PROFILES = ["debug", "release"]
